@@ -230,6 +230,9 @@ func restoreImage(tag string) bool {
 	mapPath := func(p string) string { return filepath.Join(root, strings.TrimPrefix(p, ModelRoot)) }
 	sort.Strings(img.Dirs)
 	for _, d := range img.Dirs {
+		if !strings.HasPrefix(d, ModelRoot) {
+			continue // ancestors of the model root
+		}
 		if err := os.MkdirAll(mapPath(d), 0o755); err != nil {
 			panic(err)
 		}
